@@ -685,7 +685,7 @@ func checkCompressed(refs []Reference, objects []Object) error {
 // by then, so the output must be discarded if this happens.
 //
 // If /Length is absent, the writer determines the value itself.
-func (w *Writer) OpenStream(ref Reference, dict Dict, filters ...Filter) (io.WriteCloser, error) {
+func (w *Writer) OpenStream(ref Reference, dict Dict, filters ...Filter) (_ io.WriteCloser, err error) {
 	if w.inStream {
 		return nil, errors.New("OpenStream() while stream is open")
 	}
@@ -711,10 +711,17 @@ func (w *Writer) OpenStream(ref Reference, dict Dict, filters ...Filter) (io.Wri
 		leadingCrypt = cf
 	}
 
-	err := w.setXRef(ref, &xRefEntry{Pos: w.w.pos, Generation: ref.Generation()})
+	err = w.setXRef(ref, &xRefEntry{Pos: w.w.pos, Generation: ref.Generation()})
 	if err != nil {
 		return nil, fmt.Errorf("Writer.OpenStream: %w", err)
 	}
+	// Nothing has been written yet when one of the checks below refuses the
+	// call: the entry must not stay behind, pointing at whatever is written next.
+	defer func() {
+		if err != nil {
+			delete(w.xref, ref.Number())
+		}
+	}()
 	w.w.ref = ref
 
 	// Copy dict so that we don't modify the caller's dict, and inline any
